@@ -36,6 +36,10 @@ CHECKS = {
  'C12': dict(cat='exploration', technique='bounded-exhaustive re-layout: every token gap of a seed corpus x a filler alphabet of whitespace and comments; parse tree projection and generator outputs compared with the canonical layout',
              text='6 seed modules covering every grammar production x every gap between adjacent dialect tokens x 9 (15) fillers (whitespace kinds, C/C++ comments containing braces, semicolons, quotes, keywords, star runs, several comments in a row), all-gaps and alternating variants, (thorough) all gap pairs on small seeds; the parse-tree projection must be identical and the pybind output and MATLAB tree byte-identical to the canonical layout.',
              note='Dialect terminals atomic (defaults, include header, multi-word keywords); differential oracle.', ref='2/C12'),
+
+ 'C07': dict(cat='fault_enumeration', technique='exhaustive single-fault enumeration on the token sequence of a seed corpus (delete, duplicate, swap, truncate, insert stray token at every position), token accounting on accepted inputs, output-directory diff and horizon on rejected ones, for the parser, both generators and both scripts',
+             text='Every single-token corruption of 6 seed modules (every deletion, duplication, adjacent swap, truncation at token boundaries and inside tokens, insertion of 12 (18) stray tokens at every gap; thorough: two-fault combinations) plus 6 validation-error inputs: an accepted input must have every token accounted for in the parse tree; a rejected one must raise within 60 s, and PybindWrapper.wrap / wrap_submodule, MatlabWrapper.wrap and both scripts (in-process and as subprocesses) must leave a pre-populated output area byte-for-byte unchanged and create nothing.',
+             note='Token accounting is by multiset (class members are stored per kind); file-writing drivers are run on every 12th (4th) fault.', ref='2/C07'),
 }
 NOT_YET = 'check not built yet in this session (see DESIGN.md for the planned exhaustive exploration)'
 
